@@ -3,11 +3,11 @@ from ural.has_special_host import is_special_host
 
 
 class SuffixTrieNode(object):
-    __slots__ = ("children", "exception", "leaf", "private")
+    __slots__ = ("children", "exceptions", "leaf", "private")
 
     def __init__(self):
         self.children = None
-        self.exception = None
+        self.exceptions = None
         self.leaf = False
         self.private = False
 
@@ -22,9 +22,13 @@ class SuffixTrie(object):
         # Iterating over the suffix parts in reverse order
         for part in reversed(suffix.split(".")):
 
+            # NOTE: an exception rule does not make its parent a suffix
             if part.startswith("!"):
-                node.exception = part[1:]
-                break
+                if node.exceptions is None:
+                    node.exceptions = set()
+
+                node.exceptions.add(part[1:])
+                return
 
             # To save up some RAM, we initialize the children dict only
             # when strictly necessary
@@ -67,12 +71,14 @@ class SuffixTrie(object):
         for i in range(l - 1, -1, -1):
             part = parts[i]
 
-            # Cannot go deeper
-            if node.children is None:
+            # Exception: the suffix is the parent of the exception rule
+            if node.exceptions is not None and part in node.exceptions:
+                suffix_length = current_length
+                match = node
                 break
 
-            # Exception
-            if part == node.exception:
+            # Cannot go deeper
+            if node.children is None:
                 break
 
             child = node.children.get(part)
@@ -93,8 +99,8 @@ class SuffixTrie(object):
                 suffix_length = current_length
                 match = node
 
-        # Checking the node we finished on is a leaf and is one we allow
-        if match is None or not match.leaf:
+        # Checking we matched some rule
+        if match is None:
             return None
 
         # hostname = suffix ?
